@@ -606,6 +606,9 @@ impl ProcessEvent<ConsensusEvent> for ConsensusThread {
             }
         }
 
+        // blocks arriving from now on come from peers, possibly out of order
+        blockchain.initial_loading_completed = true;
+
         debug!(
             "sending block id update as : {:?}",
             blockchain.last_block_id
